@@ -78,6 +78,8 @@ def shards(tier):
             for i in range(0, total, step):
                 sh.append(('B', n, m, i, min(total, i + step)))
     sh.append(('C',))
+    sh.append(('BIGDEF',))
+    sh.append(('BIGCTX',))
     return sh
 
 
@@ -237,8 +239,88 @@ def run_c(tier):
     return {'counters': dict(ctr), 'violations': V, 'samples': [], 'outcomes': []}
 
 
+def run_bigdef(tier):
+    """Big definitions (12 x 9 names, long argument lists) under opposite rank
+    assignments: a set of 5+ labels iterates in rank order, so two opposite
+    assignments contradict any required order for every pair of names."""
+    from .. import bigdefs
+    universe = bigdefs.UNIVERSE
+    names = sorted(set(universe[0]) | set(universe[1]))
+    ctr = collections.Counter()
+    V = []
+    rank_sets = [{n: i for i, n in enumerate(names)},
+                 {n: len(names) - i for i, n in enumerate(names)},
+                 {n: (i * 7) % len(names) for i, n in enumerate(names)}]
+    base = None
+    for ranks in rank_sets:
+        env.HashLabel.ranks = ranks
+        obs = []
+        for sname, s in bigdefs.base_states():
+            for op in bigdefs.big_ops(s):
+                real = explore.make_real(s)
+                try:
+                    ret = explore.apply_real(real, op)
+                    r = 'ok:' + repr(explore.norm_ret(op[0], ret))
+                except Exception as e:
+                    r = f'raise:{type(e).__name__}:{e}'
+                key = json.dumps([sname, explore.enc_op(op)])
+                obs.append((key, repr(explore.visible(real)) + '|' + r))
+            d = explore.make_real(s)
+            for oname, t in bigdefs.operands():
+                e = explore.make_real(t)
+                for name, fn in (('union', lambda: d.union(e, ignore_conflicts=True)),
+                                 ('intersection', lambda: d.intersection(e, ignore_conflicts=True)),
+                                 ('or', lambda: d | e), ('rand', lambda: e & d),
+                                 ('take', lambda: d.take([explore.L(x) for x in reversed(t[0])
+                                                          if x in s[0]] or None)),
+                                 ('take-reorder', lambda: d.take(None, [explore.L(x) for x in reversed(t[1])
+                                                                       if x in s[1]] or None,
+                                                                reorder=True))):
+                    obs.append((json.dumps([sname, oname, name]), c17corpus.exc(fn)))
+        ctr['calls'] += len(obs)
+        if base is None:
+            base, ranks0 = obs, ranks
+            ctr['keys'] += len(obs)
+        else:
+            compare(base, obs, 'definition', {'universe': 'big'}, ranks0, ranks, V)
+        ctr['evaluations'] += 1
+    ctr['tables'] += len(bigdefs.base_states())
+    ctr['nontrivial'] += len(bigdefs.base_states())
+    return {'counters': dict(ctr), 'violations': V[:2], 'samples': [], 'outcomes': []}
+
+
+def run_bigctx(tier):
+    """A context with more than 1000 cells (40 x 30) and long labels."""
+    n, m = 40, 30
+    on = [f'obj{i:02d}' for i in range(n)]
+    pn = [f'prop{j:02d}' for j in range(m)]
+    rows = [tuple((i * j + i + 2 * j) % 5 < 2 for j in range(m)) for i in range(n)]
+    names = on + pn
+    ctr = collections.Counter()
+    V = []
+    base = None
+    for ranks in ({x: i for i, x in enumerate(names)}, {x: len(names) - i for i, x in enumerate(names)},
+                  {x: (i * 11) % len(names) for i, x in enumerate(names)}):
+        env.HashLabel.ranks = ranks
+        obs = c17corpus.context_obs(env.labels(on), env.labels(pn), rows, unions=False)
+        ctr['calls'] += len(obs)
+        if base is None:
+            base, ranks0 = obs, ranks
+            ctr['keys'] += len(obs)
+        else:
+            compare(base, obs, 'context', {'shape': [n, m], 'code': 'big'}, ranks0, ranks, V)
+        ctr['evaluations'] += 1
+    ctr['tables'] += 1
+    ctr['nontrivial'] += 1
+    return {'counters': dict(ctr), 'violations': V[:2], 'samples': [], 'outcomes': []}
+
+
 def run_shard(shard, tier):
     try:
+        if shard[0] == 'BIGDEF':
+            return run_bigdef(tier)
+        if shard[0] == 'BIGCTX':
+            return run_bigctx(tier)
         if shard[0] == 'A':
             return run_a(shard, tier)
         if shard[0] == 'B':
@@ -334,6 +416,10 @@ def replay(v):
             vals.append(dict(c17corpus.error_obs(env.labels(ONAMES), env.labels(PNAMES)))[c['scenario']])
         if vals[0] != vals[1]:
             out.append(common.violation(ID, v['clause'], c, vals[0], vals[1]))
+    elif c.get('universe') == 'big':
+        out = run_bigdef('quick')['violations']
+    elif c.get('code') == 'big':
+        out = run_bigctx('quick')['violations']
     elif v['clause'].startswith('context'):
         n, m = c['shape']
         rows = space.rows_of(n, m, c['code'])
